@@ -24,10 +24,10 @@ def sh(cmd, **kw):
 def collect():
     os.makedirs(SEEDED, exist_ok=True)
     for d in sorted(os.listdir('/tmp')):
-        m = re.fullmatch(r'seed([23]?)_(C\d\d)', d)
+        m = re.fullmatch(r'seed([234]?)_(C\d\d)', d)
         if not m:
             continue
-        round2, m = m.group(1), re.fullmatch(r'seed[23]?_(C\d\d)', d)
+        round2, m = m.group(1), re.fullmatch(r'seed[234]?_(C\d\d)', d)
         only = [a for a in sys.argv[2:] if re.fullmatch(r'C\d\d', a)]
         if only and m.group(1) not in only:
             continue
@@ -38,7 +38,7 @@ def collect():
             if not ms or not os.path.exists(os.path.join(wt, s, 'patch.diff')):
                 continue
             found = True
-            suffix = ({'a': 'c', 'b': 'd'} if round2 == '2' else {'a': 'e', 'b': 'f'}).get(ms.group(1), ms.group(1) + round2) if round2 else ms.group(1)     # second round: c, d; third: e, f
+            suffix = {'2': {'a': 'c', 'b': 'd'}, '3': {'a': 'e', 'b': 'f'}, '4': {'a': 'g', 'b': 'h'}}[round2].get(ms.group(1), ms.group(1) + round2) if round2 else ms.group(1)     # second round: c, d; third: e, f; fourth: g, h
             dst = os.path.join(SEEDED, '%s_%s' % (m.group(1), suffix))
             if os.path.exists(dst):
                 continue
